@@ -3,7 +3,8 @@ EXTENDS Cli
 B == BOOLEAN
 Inv(sub, format, massive, file, dryrun, exts, target, strict, stray, unknown, doc, stdout) ==
   [sub |-> sub, format |-> format, massive |-> massive, file |-> file, dryrun |-> dryrun, exts |-> exts,
-   target |-> target, strict |-> strict, stray |-> stray, unknown |-> unknown, doc |-> doc, stdout |-> stdout, mtimeout |-> FALSE, watch |-> FALSE]
+   target |-> target, strict |-> strict, stray |-> stray, unknown |-> unknown, doc |-> doc, stdout |-> stdout, mtimeout |-> FALSE, watch |-> FALSE,
+   sp |-> "long", usage |-> "", desc |-> FALSE, argv |-> <<>>]
 \* output --massive-timeout 1ns (an already expired context)
 TimeoutInvs == {[Inv("output", f, m, file, FALSE, {}, "", FALSE, FALSE, FALSE, d, "pipe") EXCEPT !.mtimeout = TRUE] :
                   f \in {"", "json"}, m \in B, file \in {"stdin", "existing"}, d \in {"wf", "empty", "malformed"}}
@@ -26,9 +27,21 @@ TemplateInvs == {Inv("template", "", FALSE, "stdin", FALSE, {}, "", FALSE, st, F
 DotInvs == {Inv("output", "", FALSE, "stdin", FALSE, {}, "", FALSE, FALSE, FALSE, "dot", "pipe")}
            \cup {Inv("mkdir", "", FALSE, "stdin", FALSE, {}, t, FALSE, FALSE, FALSE, "dot", "pipe") : t \in {"", "sub"}}
            \cup {Inv("verify", "", FALSE, "stdin", FALSE, {}, t, s, FALSE, FALSE, "dot", "pipe") : t \in {"", "sub"}, s \in B}
-AllInvs == OutputInvs \cup MkdirInvs \cup VerifyInvs \cup TemplateInvs \cup DotInvs \cup TimeoutInvs \cup WatchInvs
+\* further usage errors: a value flag without its value, --massive-timeout 0s / unparsable
+UsageInvs == {[Inv("output", "", m, "stdin", FALSE, {}, "", FALSE, FALSE, FALSE, "wf", "pipe") EXCEPT !.usage = u] :
+                m \in B, u \in {"noarg", "timeout0", "timeoutbad"}}
+             \cup {[Inv(s, "", FALSE, "stdin", FALSE, {}, "", FALSE, FALSE, FALSE, "wf", "pipe") EXCEPT !.usage = "noarg"] : s \in {"mkdir", "verify"}}
+\* template --description, version, --help, nothing, an unknown subcommand
+InfoInvs == {[Inv("template", "", FALSE, "stdin", FALSE, {}, "", FALSE, st, FALSE, "wf", o) EXCEPT !.desc = TRUE] : st \in B, o \in {"pipe", "full"}}
+            \cup {Inv(s, "", FALSE, "stdin", FALSE, {}, "", FALSE, FALSE, FALSE, "wf", "pipe") : s \in {"version", "help", "none", "bogus"}}
+            \cup {Inv("version", "", FALSE, "stdin", FALSE, {}, "", FALSE, TRUE, FALSE, "wf", "pipe")}
+BaseInvs == OutputInvs \cup MkdirInvs \cup VerifyInvs \cup TemplateInvs \cup DotInvs \cup TimeoutInvs \cup WatchInvs \cup UsageInvs \cup InfoInvs
+\* every invocation in its three spellings, with the argv words the real binary is given
+Spelled(S, sps) == {[ [i EXCEPT !.sp = sp] EXCEPT !.argv = Argv([i EXCEPT !.sp = sp])] : i \in S, sp \in sps}
+AllInvs == Spelled(BaseInvs, {"long", "short", "eq"})
+QuickInvs == Spelled(BaseInvs, {"long"}) \cup Spelled({i \in BaseInvs : i.stdout = "pipe" /\ i.file # "dash"}, {"short", "eq"})
 \* second and third steps of a sequence: the same well-formed document, mkdir / verify variants
-Follow == {Inv("mkdir", "", FALSE, "stdin", dr, {".x"}, "", FALSE, FALSE, FALSE, "wf", "pipe") : dr \in B}
-          \cup {Inv("verify", "", FALSE, "stdin", FALSE, {}, "", s, FALSE, FALSE, d, "pipe") : s \in B, d \in {"wf", "dot"}}
-FirstOfSeq == {i \in AllInvs : i.sub \in {"mkdir", "verify"} /\ i.doc = "wf" /\ i.target = "" /\ ~i.stray /\ ~i.unknown /\ i.file = "stdin" /\ i.exts = {".x"} /\ i.stdout = "pipe"}
+Follow == Spelled({Inv("mkdir", "", FALSE, "stdin", dr, {".x"}, "", FALSE, FALSE, FALSE, "wf", "pipe") : dr \in B}
+          \cup {Inv("verify", "", FALSE, "stdin", FALSE, {}, "", s, FALSE, FALSE, d, "pipe") : s \in B, d \in {"wf", "dot"}}, {"long", "short"})
+FirstOfSeq == {i \in AllInvs : i.sp = "long" /\ i.sub \in {"mkdir", "verify"} /\ i.doc = "wf" /\ i.target = "" /\ ~i.stray /\ ~i.unknown /\ i.file = "stdin" /\ i.exts = {".x"} /\ i.stdout = "pipe"}
 =============================================================================
